@@ -207,7 +207,7 @@ def declare(reg):
     reg.cls("Obs", __truthy__=True)
     reg.cls("Delegate", pyclasses=["ComponentType"],
             component=Comp, requires=List(Comp), at_least_one=List(List(Comp)), deps=List(Comp),
-            optional=List(Comp), dependencies=Set(Comp))
+            optional=List(Comp), dependencies=Set(Comp), timeout=INT)
     reg.cls("Broker",
             instances=Map(Comp, Opt(Val)), missing_requirements=Map(Comp, MISSING),
             exceptions=Map(Comp, List(EXC)), tracebacks=Map(EXC, Opt(STR)), exec_times=Map(Comp, REAL),
@@ -302,7 +302,8 @@ def declare(reg):
 
     # interface contract of process(): what run_components may rely on (each override is verified against it)
     reg.interface("Delegate", "process", params=dict(self=Ref("Delegate"), broker=Ref("Broker")), returns=Opt(Val),
-                  modifies=["Broker.exceptions", "Broker.tracebacks"],
+                  # missing_requirements: written by add_exception on the way (left equal, see PROCESS_FRAME); timeout: datasource.invoke
+                  modifies=["Broker.exceptions", "Broker.tracebacks", "Broker.missing_requirements", "Delegate.timeout"],
                   raises={"Exception": None},
                   ensures=PROCESS_FRAME, ensures_raise={"Exception": PROCESS_FRAME})
     reg.interface("Broker", "fire_observers", params=dict(self=Ref("Broker"), component=Comp),
@@ -314,7 +315,7 @@ def declare(reg):
                  requires=["distinct(ordered_components)",
                            "forall(c, DELEGATES, DELEGATES[c].component == c)"],
                  modifies=["Broker.instances", "Broker.exceptions", "Broker.tracebacks", "Broker.missing_requirements",
-                           "Broker.exec_times", "BLACKLISTED_SPECS"],
+                           "Broker.exec_times", "BLACKLISTED_SPECS", "Delegate.timeout"],
                  ghosts=collections.OrderedDict(att=(List(Comp), "[]"), attpos=(List(INT), "[]"), attidx=(Map(Comp, INT), "{}"),
                                                 g_arm=(INT, "0"), g_exc=(EXC, "uf('no_exc', EXC)"),
                                                 g_exc0=(Map(Comp, List(EXC)), "broker.exceptions")),
@@ -391,13 +392,14 @@ def declare(reg):
                  raises={},
                  ensures=SG_POST)
     declare_init(reg)
+    declare_init_tags(reg)
 
 
 def declare_init(reg):
     """ComponentType.__init__ (C02): two windows of the constructor body - the classification of the declared dependencies and the
     final dependency list.  *deps / **kwargs handling, metadata, group and tags (before / between / after the windows) are not executed."""
     Dep = U("Dep")          # one declared dependency: a component, or a list of components (an at-least-one group)
-    reg.sort(Dep=Dep)
+    reg.sort(Dep=Dep, Str=STR)
     reg.cls("Dep", __isinstance__={"list": "is_group(self)"})
     reg.specfun("is_group", dict(d=Dep), BOOL, None)
     reg.specfun("group_of", dict(d=Dep), List(Comp), None)
@@ -446,3 +448,18 @@ def declare_init(reg):
                  modifies=["Delegate.deps", "Delegate.dependencies"], raises={},
                  # optional dependencies come last, in order; the dependency set is exactly the members of the list
                  ensures=["seq_eq(self.deps, old(self.deps) + old(self.optional))", "self.dependencies == elems(self.deps)"])
+
+
+def declare_init_tags(reg):
+    """third window of ComponentType.__init__ (C12): a component's tags are the class defaults plus the declared ones, and the class
+    default list is not modified (it is shared by every component of the type)."""
+    reg.classes["DelegateCls"]["tags"] = List(STR)
+    reg.classes["Delegate"]["tags"] = Set(STR)
+    reg.contract(M, "ComponentType.__init__", window="tags",
+                 params=collections.OrderedDict(self=Ref("Delegate"), deps=List(U("Dep")), kwargs=Map(STR, Opt(List(STR)))),
+                 from_stmt="if kwargs.get('cluster', False):\n    self.group = GROUPS.cluster", from_after=True, locals=dict(tags=List(STR)),
+                 modifies=["Delegate.tags"], raises={},
+                 ensures=["forall(t, Str, (t in self.tags) == (t in elems(self.__class__.tags) or "
+                          "('tags' in kwargs and kwargs['tags'] is not None and t in elems(some(kwargs['tags'])))))",
+                          "forall(o, Ref_Delegate, implies(o != self, o.tags == old(o.tags)))"],
+                 note="kwargs is read for the key 'tags' only in this window: typed as a mapping to optional lists of strings")
